@@ -30,8 +30,9 @@
      LeafNonEmpty    no empty leaf, except the single empty leaf of a tree without finite boxes
      FiniteTree      at most 2 n - 1 nodes for n volumes in the tree
    and, informational only (DRIFT: documented in BIHData.hh / BIHBuilder.hh but not needed by
-   the contract): PlanesTight (the planes ARE the extreme faces) and LeafSharesCentre (a
-   leaf with several volumes holds boxes with one common centre).
+   the contract): PlanesTight (the planes ARE the extreme faces), LeafSharesCentre (a leaf with
+   several volumes holds boxes with one common centre) and PartitionByCentre (centres below the
+   left edge are smaller than centres below the right edge).
 
    Coordinates are integers in HALF lattice units (exact in float/double); +-INF stands for
    +-infinity.  Volume and node ids are 0-based as in the code; -1 is the null id.
@@ -173,6 +174,15 @@ PlanesTight(B, T) ==
      /\ n.lpos = MaxOf({Box(B, v).hi[Ax(n)] : v \in lv})
      /\ n.rpos = MinOf({Box(B, v).lo[Ax(n)] : v \in rv})
 
+\* "partitioning is done on the basis of bounding box centers" (BIHBuilder.hh): along the node's
+\* axis every centre below the left edge is smaller than every centre below the right edge
+PartitionByCentre(B, T) ==
+  (\A v \in TreeVols(B) : IsFinite(Box(B, v))) =>
+     \A i \in Inners(T) :
+        LET n == Nd(T, i) IN
+        \A v \in VolsBelow(T, n.lchild), w \in VolsBelow(T, n.rchild) :
+           Centre2(Box(B, v), Ax(n)) < Centre2(Box(B, w), Ax(n))
+
 \* documented in BIHBuilder.hh; only meaningful when every box in the tree is finite (the
 \* partitioner's cost function is infinite otherwise)
 LeafSharesCentre(B, T) ==
@@ -191,6 +201,7 @@ StructDrift(B, T) ==
   IF StructViolations(B, T) # {} THEN {}
   ELSE Named(PlanesTight(B, T), "Bih.PlanesTight")
        \cup Named(LeafSharesCentre(B, T), "Bih.LeafSharesCentre")
+       \cup Named(PartitionByCentre(B, T), "Bih.PartitionByCentre")
 
 (* ---- (2b) lookup clauses: calls = the ids the predicate was called with, in order;
         r = the returned id (None = not found); Acc = the ids the predicate accepts ---- *)
